@@ -12,6 +12,16 @@ CLAIMED = {
              "logging/traceback stubbed; CrossHair+z3 trusted",
         ref="DESIGN.md section 5 C01",
     ),
+    "C02": dict(
+        text="Bounded symbolic execution of FortranFile.apply_change / splitlines / serve_onChange against the LSP text-edit "
+             "reference model: every range inside 3 (quick) / 6 (thorough) document shapes x inserted texts of <=3 segments "
+             "joined by LF|CR|CRLF, whole-document sync, a preprocessed file whose expanded copy differs, and splitlines on a "
+             "free symbolic string (any characters, len<=4). One edit from an arbitrary valid buffer + buffer invariant gives "
+             "sequences by induction; 2-edit chains explicitly in thorough.",
+        note="documents <=3 lines x <=2 chars; one representative non-break character except in the free-string obligation; "
+             "update_workspace_file stubbed; BMP characters (UTF-16 offsets == str indices); CrossHair+z3 trusted",
+        ref="DESIGN.md section 5 C02",
+    ),
 }
 
 NOT_APPLICABLE = {
